@@ -154,6 +154,10 @@ def c06_scripts(seed, n):
                 v["fault"] = {"err": rng.choice([6, 3, 1]), "field": "partition"}
         out.append({"id": "c06-%d-%d" % (seed, k), "kind": "c06", "versions": vers(produce=rng.choice([2, 3, 7]), fetch=rng.choice([2, 5, 10]), metadata=rng.choice([1, 6])),
                     "ops": ops, "report": False, "codec": rng.choice([0, 0, 1, 2, 3, 4])})
+    # recycled buffers: a Batch closed twice, then two Conns reading compressed batches at the same time (every codec, fetch versions)
+    for codec in (1, 2, 3, 4):
+        for fv in (10, 5):
+            out.append({"id": "c06-pool-c%d-v%d" % (codec, fv), "kind": "pool", "versions": vers(fetch=fv), "ops": [], "report": False, "codec": codec})
     # writers queueing up: one caller stays inside doRequest (write lock held) while the others arrive, so that
     # several are blocked on the write lock at once; answers are delayed differently
     for k in range(max(4, n // 8)):
